@@ -54,3 +54,89 @@ Theorem C10_handled_exactly_once :
   forall E fuel hs t0 en ops s rs, run E fuel hs (init t0 en) ops = (s, rs) -> once E (log s).
 Proof. exact handled_exactly_once. Qed.
 Print Assumptions C10_handled_exactly_once.
+
+(* ---- asynchronous executor path: AsyncExecutor on the task managers / event loop (AsyncExec.v on TaskMgr.v) ---- *)
+(* imported here, after the theorems about the synchronous model: TaskMgr.v reuses the names run / init / Inv / state *)
+From EAS Require Import TaskMgr TaskMgrFacts AsyncExec AsyncExecFacts.
+Theorem C10_async_handled_at_most_once : forall m evs, NoDup (hlog (arun m evs)).
+Proof. exact async_handled_at_most_once. Qed.
+Print Assumptions C10_async_handled_at_most_once.
+Theorem C10_async_handled_iff_raised : forall m evs c, In c (hlog (arun m evs)) <-> left_by_exception (arun m evs) c.
+Proof. exact async_handled_iff_raised. Qed.
+Print Assumptions C10_async_handled_iff_raised.
+Theorem C10_async_handler_log_exact : forall m evs, hlog (arun m evs) = map who (filter is_raise (ulog (arun m evs))).
+Proof. exact async_handler_log_exact. Qed.
+Print Assumptions C10_async_handler_log_exact.
+Theorem C10_async_exit_once : forall m evs c w1 n1 w2 n2,
+  In (c, w1, n1) (ulog (arun m evs)) -> In (c, w2, n2) (ulog (arun m evs)) ->
+  n1 <> NPark -> n2 <> NPark -> w1 = w2 /\ n1 = n2.
+Proof. exact async_exit_once. Qed.
+Print Assumptions C10_async_exit_once.
+Theorem C10_async_never_ran : forall m evs c,
+  ent (ast (arun m evs)) c = false -> never_ran (arun m evs) c /\ ~ In c (hlog (arun m evs)).
+Proof. exact async_never_ran. Qed.
+Print Assumptions C10_async_never_ran.
+Theorem C10_async_closed_not_handled : forall m evs c,
+  In c (closed (ast (arun m evs))) ->
+  ph (ast (arun m evs)) c = Closed /\ never_ran (arun m evs) c /\ ~ In c (hlog (arun m evs)).
+Proof. exact async_closed_not_handled. Qed.
+Print Assumptions C10_async_closed_not_handled.
+Theorem C10_async_cancelled_not_handled : forall m evs c,
+  left_by_cancellation (arun m evs) c -> ~ In c (hlog (arun m evs)).
+Proof. exact async_cancelled_not_handled. Qed.
+Print Assumptions C10_async_cancelled_not_handled.
+Theorem C10_async_returned_not_handled : forall m evs c,
+  left_by_return (arun m evs) c -> ~ In c (hlog (arun m evs)).
+Proof. exact async_returned_not_handled. Qed.
+Print Assumptions C10_async_returned_not_handled.
+Theorem C10_async_no_task_exception : forall m evs c d,
+  ph (ast (arun m evs)) c = Done d \/ ph (ast (arun m evs)) c = Processed d -> d = DRet \/ d = DCanc.
+Proof. exact async_no_task_exception. Qed.
+Print Assumptions C10_async_no_task_exception.
+Theorem C10_async_handled_task_done : forall m evs c,
+  In c (hlog (arun m evs)) ->
+  exists d, (ph (ast (arun m evs)) c = Done d \/ ph (ast (arun m evs)) c = Processed d) /\ (d = DRet \/ d = DCanc).
+Proof. exact async_handled_task_done. Qed.
+Print Assumptions C10_async_handled_task_done.
+Theorem C10_async_mgr_unaffected : forall m evs, ast (arun m evs) = TaskMgr.run m (wrap_events m TaskMgr.init evs).
+Proof. exact async_mgr_unaffected. Qed.
+Print Assumptions C10_async_mgr_unaffected.
+Theorem C10_async_inv : forall m evs, TaskMgrFacts.Inv m (ast (arun m evs)).
+Proof. exact async_inv. Qed.
+Print Assumptions C10_async_inv.
+Theorem C10_async_par_bound : forall n p evs, length (tracked (ast (arun (MParLim n p) evs))) <= n.
+Proof. exact async_par_bound. Qed.
+Print Assumptions C10_async_par_bound.
+Theorem C10_async_failing_frees_slot : forall m evs c,
+  In c (hlog (arun m evs)) ->
+  let s := ast (arun m evs) in
+  (exists d, ph s c = Done d /\ In (HDone c) (ready s)) \/
+  (exists d, ph s c = Processed d /\ ~ In c (tracked s) /\ running s <> Some c).
+Proof. exact async_failing_frees_slot. Qed.
+Print Assumptions C10_async_failing_frees_slot.
+Theorem C10_async_seq_next_starts : forall m evs c r bs,
+  is_seq m = true -> ready (ast (arun m evs)) = HDone c :: r ->
+  let s := ast (arun m evs) in let s' := ast (arun m (evs ++ [Run bs])) in
+  running s = Some c /\
+  match queue s with
+  | [] => running s' = None /\ queue s' = []
+  | (c', k') :: q => running s' = Some c' /\ queue s' = q /\ ph s' c' = Created /\ In (HStep c') (ready s') /\
+                     started s' = started s ++ [c']
+  end.
+Proof. exact async_seq_next_starts. Qed.
+Print Assumptions C10_async_seq_next_starts.
+Theorem C10_async_par_release : forall m evs c r bs,
+  is_par m = true -> ready (ast (arun m evs)) = HDone c :: r ->
+  let s' := ast (arun m (evs ++ [Run bs])) in
+  ~ In c (tracked s') /\ (exists d, ph s' c = Processed d) /\
+  length (tracked s') <= length (tracked (ast (arun m evs))).
+Proof. exact async_par_release. Qed.
+Print Assumptions C10_async_par_release.
+Theorem C10_async_seq_mutex : forall m evs,
+  is_seq m = true ->
+  let s := ast (arun m evs) in
+  (forall c, is_live (ph s c) = true <-> running s = Some c) /\
+  (forall c c', is_live (ph s c) = true -> is_live (ph s c') = true -> c = c') /\
+  (forall c c', body_open s c -> body_open s c' -> c = c').
+Proof. exact async_seq_mutex. Qed.
+Print Assumptions C10_async_seq_mutex.
